@@ -75,6 +75,7 @@ STUB = ['event loop + clock', 'TCP', 'executor', 'OS randomness',
         'on-path handshake editor (independent cleartext codec)']
 PROBES = ['edit_applied', 'edit_flip', 'edit_version', 'edit_list',
           'edit_follows', 'edit_hostkey', 'no_common_alg',
+          'hostkey_alg_checked',
           'handshake_ok', 'downgrade_attempt_effective', 'kex_gex',
           'kex_rsa', 'kex_hybrid']
 
@@ -397,6 +398,47 @@ class KexServer(RecServer):
         return False
 
 
+def hostkey_on_wire(packets):
+    """(key type, signature algorithm) of the server's cleartext kex
+       messages: K_S is the first field of the first one that starts with a
+       key blob, the signature the last field of the last one"""
+
+    ktype = sig_alg = None
+
+    for epoch, _seq, ptype, payload, _n in packets:
+        if epoch != 0 or not 30 <= ptype <= 49:
+            continue
+
+        r = Reader(payload, 1)
+        fields = []
+
+        try:
+            while r.p < len(payload):
+                fields.append(r.string())
+        except Short:
+            pass
+
+        def name_of(blob):
+            try:
+                a = Reader(blob).string()
+            except Short:
+                return None
+
+            return a if a.startswith((b'ssh-', b'ecdsa-', b'rsa-')) else None
+
+        if fields and ktype is None and name_of(fields[0]):
+            ktype = name_of(fields[0])
+
+        if fields and name_of(fields[-1]) and \
+                (len(fields) > 1 or ptype == 32):
+            sig_alg = name_of(fields[-1])
+
+    if ktype is None or sig_alg is None:
+        return None
+
+    return ktype, sig_alg
+
+
 def run_plan(plan, sched_seed=None, sched_replay=None):
     world = World(plan, sched_seed, sched_replay)
     sim = world.sim
@@ -577,6 +619,21 @@ def run_plan(plan, sched_seed=None, sched_replay=None):
                     'negotiation-mismatch',
                     '%s uses %r, first client choice the server supports '
                     'is %r' % (name, g, wnt), sig=name.split()[1])
+
+        # host key algorithm: read off the wire (key type in K_S, algorithm
+        # name inside the exchange signature of the server's kex reply)
+        used_hk = hostkey_on_wire(w.d['s2c'].packets) if w else None
+
+        if used_hk is not None and expect['hostkey'] is not None:
+            sim.probes['hostkey_alg_checked'] += 1
+
+            if used_hk[1] != expect['hostkey']:
+                world.violation(
+                    'negotiation-mismatch',
+                    'server signed the exchange with %r (key %r), first '
+                    'client choice the server supports is %r' %
+                    (used_hk[1], used_hk[0], expect['hostkey']),
+                    sig='hostkey')
 
         kexes = {label: k for label, k in sim.kex_used.items()}
 
